@@ -432,21 +432,7 @@ func ruleR17() *Rule {
 			// under a comparison of field names / lengths) — decided by R17b
 			mf := c.fn("mergeFields")
 			if mf != nil {
-				// the returned bool is a phi of true and false; the false edges are control dependent on a
-				// comparison involving both the first segment's fields and the current segment's fields
-				okc := false
-				for _, ret := range returnsOf(mf) {
-					if len(ret.Results) > 0 && isBoolType(ret.Results[0]) {
-						if _, ok := ret.Results[0].(*ssa.Phi); ok {
-							okc = true
-						}
-						if k, ok := constBool(ret.Results[0]); ok {
-							_ = k
-							okc = false
-						}
-					}
-				}
-				c.add2(okc, []string{"C05", "C06"}, "mergeFields/computed", c.fpos(mf), "mergeFields computes fieldsSame (it is not a constant)", "fieldsSame is returned as a constant")
+				r17MergeFields(c, mf)
 			}
 		},
 	}
@@ -976,4 +962,146 @@ func instrIndex(in ssa.Instruction) int {
 		}
 	}
 	return -1
+}
+
+// r17MergeFields: fieldsSame becomes false whenever a field list differs from
+// the first segment's — i.e. the assignment of false is controlled only by
+// comparisons between the two field lists (and the loops over them). Any other
+// conjunct restricts when a difference is noticed.
+func r17MergeFields(c *RuleCtx, mf *ssa.Function) {
+	props := []string{"C05", "C06"}
+	p := c.p
+	var isList func(v ssa.Value, depth int) bool
+	isList = func(v ssa.Value, depth int) bool {
+		if depth > 4 || v == nil {
+			return false
+		}
+		switch x := v.(type) {
+		case *ssa.Call:
+			if f := x.Call.StaticCallee(); f != nil && f.Name() == "Fields" {
+				return true
+			}
+		case *ssa.UnOp:
+			if _, fld, _, ok := loadedField(x); ok && fld == "fieldsInv" {
+				return true
+			}
+		case *ssa.Phi:
+			any := false
+			for _, e := range x.Edges {
+				if isNilConst(e) || e == ssa.Value(x) {
+					continue
+				}
+				if !isList(e, depth+1) {
+					return false
+				}
+				any = true
+			}
+			return any
+		}
+		return false
+	}
+	fromList := func(v ssa.Value) bool {
+		switch x := v.(type) {
+		case *ssa.Call:
+			if b, ok := x.Call.Value.(*ssa.Builtin); ok && b.Name() == "len" {
+				return isList(x.Call.Args[0], 0)
+			}
+		case *ssa.UnOp:
+			if x.Op == token.MUL {
+				if ia, ok := x.X.(*ssa.IndexAddr); ok {
+					return isList(ia.X, 0)
+				}
+			}
+		}
+		return false
+	}
+	// the returned flag
+	var flag *ssa.Phi
+	for _, ret := range returnsOf(mf) {
+		if len(ret.Results) > 0 && isBoolType(ret.Results[0]) {
+			flag, _ = ret.Results[0].(*ssa.Phi)
+		}
+	}
+	if flag == nil {
+		c.undecidedP(props, "mergeFields/computed", c.fpos(mf), "mergeFields computes fieldsSame as a flag that starts true and is cleared on a difference", "the first result is not a phi of constants: idiom not recognised")
+		return
+	}
+	// all phis of the flag web, and the blocks from which `false` enters
+	web := map[*ssa.Phi]bool{}
+	var falseFrom []*ssa.BasicBlock
+	startsTrue := false
+	var walk func(ph *ssa.Phi)
+	walk = func(ph *ssa.Phi) {
+		if web[ph] {
+			return
+		}
+		web[ph] = true
+		for i, e := range ph.Edges {
+			if b, ok := constBool(e); ok {
+				if b {
+					startsTrue = true
+				} else {
+					falseFrom = append(falseFrom, ph.Block().Preds[i])
+				}
+				continue
+			}
+			if p2, ok := e.(*ssa.Phi); ok {
+				walk(p2)
+			}
+		}
+	}
+	walk(flag)
+	c.add2(startsTrue && len(falseFrom) > 0, props, "mergeFields/computed", c.fpos(mf), "mergeFields computes fieldsSame: it starts true and is cleared somewhere", fmt.Sprintf("starts true: %v, cleared at %d places", startsTrue, len(falseFrom)))
+	deps := transitiveControlDeps(mf)
+	var bad []string
+	sawLen, sawElem := false, false
+	for _, b := range falseFrom {
+		for _, d := range deps[b] {
+			cond := branchCond(d.Branch)
+			bo, ok := cond.(*ssa.BinOp)
+			if !ok {
+				if call, ok := cond.(*ssa.Call); ok && len(call.Call.Args) == 2 && isList(call.Call.Args[0], 0) && isList(call.Call.Args[1], 0) {
+					sawLen, sawElem = true, true
+					continue // an equality helper over both lists
+				}
+				if u, ok := cond.(*ssa.UnOp); ok && u.Op == token.NOT {
+					if call, ok := u.X.(*ssa.Call); ok && len(call.Call.Args) == 2 && isList(call.Call.Args[0], 0) && isList(call.Call.Args[1], 0) {
+						sawLen, sawElem = true, true
+						continue
+					}
+				}
+				bad = append(bad, "clearing the flag also depends on "+describeInstr(p, d.Branch.Instrs[len(d.Branch.Instrs)-1]))
+				continue
+			}
+			// loop conditions
+			if bo.Op == token.LSS {
+				if _, isPhiIdx := rangeIndexOf(bo.X); isPhiIdx {
+					continue
+				}
+			}
+			if (bo.Op == token.NEQ || bo.Op == token.EQL) && fromList(bo.X) && fromList(bo.Y) {
+				if _, ok := bo.X.(*ssa.Call); ok {
+					sawLen = true
+				} else {
+					sawElem = true
+				}
+				continue
+			}
+			bad = append(bad, "clearing the flag also depends on "+describeInstr(p, d.Branch.Instrs[len(d.Branch.Instrs)-1]))
+		}
+	}
+	c.add2(len(bad) == 0 && sawLen && sawElem, props, "mergeFields/every-difference-clears", c.fpos(mf),
+		"fieldsSame is cleared whenever a segment's field list differs from the first segment's in length or in any element: the clearing is controlled only by those two comparisons and the loops over segments and fields",
+		fmt.Sprintf("length compared: %v, elements compared: %v; %s — some differences between field lists would go unnoticed and stored/posting bytes carrying segment-local field ids would be copied verbatim", sawLen, sawElem, strings.Join(uniq(bad), "; ")))
+}
+
+func rangeIndexOf(v ssa.Value) (*ssa.Phi, bool) {
+	if bo, ok := v.(*ssa.BinOp); ok && bo.Op == token.ADD {
+		v = bo.X
+	}
+	ph, ok := v.(*ssa.Phi)
+	if !ok {
+		return nil, false
+	}
+	return ph, ph.Comment == "rangeindex" || true
 }
